@@ -29,12 +29,12 @@ inductive Payload where
   | int (v : Nat)
   | float (bits : UInt64)
   | str (a b : Nat)
-  deriving DecidableEq, Repr, Inhabited, BEq
+  deriving DecidableEq, Repr, Inhabited
 
 structure LineInfo where
   byte : Nat
   start : Nat
-  deriving DecidableEq, Repr, Inhabited, BEq
+  deriving DecidableEq, Repr, Inhabited
 
 /-- `TokenInfo` of `buffer.rs`; `line` is the zero-based line index. -/
 structure TokInfo where
@@ -44,7 +44,7 @@ structure TokInfo where
   start : Nat
   line : Nat
   payload : Payload
-  deriving DecidableEq, Repr, Inhabited, BEq
+  deriving DecidableEq, Repr, Inhabited
 
 /-- `ErrorInfo` of `error.rs`. -/
 structure ErrInfo where
@@ -54,7 +54,7 @@ structure ErrInfo where
   line : Nat
   col : Nat
   lastTok : Option Nat
-  deriving DecidableEq, Repr, Inhabited, BEq
+  deriving DecidableEq, Repr, Inhabited
 
 /-! ## Lexer modes (`lexer_mode.rs`)
 
@@ -84,7 +84,7 @@ inductive Mode where
   | macroNameExpr (found : Bool) (err : Option ErrorKind)
   | macroSemiTerminatedTextExpr
   | macroStatOptionsTextExpr
-  deriving DecidableEq, Repr, Inhabited, BEq
+  deriving DecidableEq, Repr, Inhabited
 
 /-- Canonical one-word encoding shared with the harness (`verif::encode_mode`). -/
 def Mode.encode : Mode → String
